@@ -297,6 +297,73 @@ def run(prog, rep, tier, repo):
         (rep.viol if problems else rep.ok)('romberg-shape', key, '; '.join(problems) if problems else
                                            'trapezoid refinement on odd nodes + Richardson factors 4^m - 1', site_of(f.body))
     rep.floor('romberg-shape', 1, 'romberg')
+
+    # ---- D4b early stop: compares two extrapolated diagonal entries, the returned one being the deeper; never at depth 1, where the
+    # reference R[0,0] is the raw one-panel trapezoid (an integrand whose midpoint value lies on the chord, e.g. x^2(x^2-1) on [-1,1],
+    # makes Simpson and the one-panel trapezoid agree while both are wrong)
+    if f is not None:
+        key = 'romberg-stop'
+        problems = []
+        nret = 0
+        for d in f._defs.get(0, []):
+            bb = d[1]
+            val = f.rvalue_term(d[3], bb) if d[0] == 'assign' else f.call_term(d[2], bb)
+            # a return that leaves from inside a loop: its block is not part of the natural loop, but it is control dependent on the
+            # loop's continuation test (or mentions the loop counter)
+            loops = [li for li in f.loop_info() if li['item'] is not None and
+                     (li['item'] in subterms(val) or any(tag(c) == 'discr' and li['item'][2] in subterms(c) for c in f.control_conds(bb)))]
+            loops = [li for li in loops if any(tag(cn) == 'discr' and li['item'][2] in subterms(cn) and v == ('eq', 1) for cn, v in f.guards().get(bb, []))]
+            if not loops:
+                continue
+            nret += 1
+            idx = val[2][1] if tag(val) == 'call' and len(val[2]) == 2 and tag(val[2][1]) == 'agg' else None
+            n_ = None
+            for li in loops:
+                prev_ = ('bin', 'Sub', li['item'], ('const', 'usize', 1), 'usize')
+                if idx is not None and idx[3] in ((li['item'], li['item']), (prev_, prev_)):      # either of the two compared entries
+                    n_ = li
+            if n_ is None:
+                problems.append('early return is %s, not one of the compared diagonal entries R[n,n] / R[n-1,n-1] of the level loop' % show(val)[:60])
+                continue
+            item = n_['item']
+            rng = item[2]
+            lo = rng[1][2] if tag(rng) == 'range' and tag(rng[1]) == 'const' else None
+            low = lo if isinstance(lo, int) else 0
+            for cn, v in f.guards().get(bb, []):
+                if tag(cn) == 'bin' and cn[2] == item and tag(cn[3]) == 'const' and isinstance(cn[3][2], int):
+                    c = cn[3][2]
+                    if cn[1] == 'Gt' and v is True:
+                        low = max(low, c + 1)
+                    elif cn[1] == 'Ge' and v is True:
+                        low = max(low, c)
+                    elif cn[1] == 'Le' and v is False:
+                        low = max(low, c + 1)
+                    elif cn[1] == 'Lt' and v is False:
+                        low = max(low, c)
+                    elif cn[1] == 'Ne' and v is True and c == low:
+                        low = c + 1
+            if low < 2:
+                problems.append('the early return can fire at level n = %d: the convergence test then compares R[1,1] (Simpson) with the raw one-panel '
+                                'trapezoid R[0,0]; x^2(x^2-1) on [-1,1] returns 0 instead of -4/15 for every eps > 0' % low)
+            prev = ('agg', idx[1], idx[2], (('bin', 'Sub', item, ('const', 'usize', 1), 'usize'),) * 2) if idx is not None else None
+            conds = f.control_conds(bb)
+            cmpc = [c for c in conds if tag(c) == 'bin' and c[1] in ('Lt', 'Le') and c[4] == 'f64']
+            okc = bool(cmpc)
+            for c in cmpc:
+                reads = [z for z in subterms(c[2]) if tag(z) == 'call' and len(z[2]) == 2 and tag(z[2][1]) == 'agg']
+                idxs = set(z[2][1][3] for z in reads)
+                if idxs != {(item, item), prev[3]}:
+                    okc = False
+            if not okc:
+                problems.append('the stopping test does not compare R[n,n] with R[n-1,n-1] against the tolerance (difference < eps)')
+        if nret == 0 and len(f._defs.get(0, [])) > 1:
+            rep.undecided('romberg-stop', key, 'several return sites but none recognised as leaving the level loop')
+        elif nret == 0:
+            rep.ok('romberg-stop', key, 'no early return: all nmax levels are always computed')
+        else:
+            (rep.viol if problems else rep.ok)('romberg-stop', key, '; '.join(problems) if problems else
+                                               'early return of R[n,n] only for n >= 2, on |R[n,n] - R[n-1,n-1]| (relative or absolute) < eps', site_of(f.body))
+    rep.floor('romberg-stop', 1, 'romberg')
     return {}
 
 
